@@ -161,7 +161,7 @@ def setI {α : Type} (k : Key) (v : Option α) (l : List (Key × α)) : List (Ke
 
 def worst (a b : String) : String := if a == "ok" then b else a
 
-def Verdict.rank : Verdict → Nat
+def WK.C16.Verdict.rank : Verdict → Nat
   | .ok => 0 | .rejoin => 1 | .ensureGen => 2 | .regressed => 3 | .stale => 4
 
 def worstV (a b : Verdict) : Verdict := if a.rank < b.rank then b else a
